@@ -100,6 +100,11 @@ class Prop(core.Prop):
             for cal in CALS:
                 for mode in ('vector', 'single', 'bounds-var', 'bounds-approx'):
                     yield dict(group, cal=cal, mode=mode)
+                # the calendar attribute in another letter case (CF: the values are not case sensitive)
+                if cal is not None and (group['spell'] in (0, 3, 11) or self.tier == 'thorough'):
+                    for mode in ('vector', 'bounds-var'):
+                        yield dict(group, cal=cal, mode=mode, calspell=cal.upper())
+                        yield dict(group, cal=cal, mode=mode, calspell=cal.title())
                 # the same decoding for time variables stored as 32-bit integers, 32-bit floats, 64-bit integers
                 if group['spell'] in (0, 3, 11) or self.tier == 'thorough':
                     for dt in TDTYPES[1:]:
@@ -138,7 +143,7 @@ class Prop(core.Prop):
         tv[:] = vals
         tv.units = units
         if cal is not None:
-            tv.calendar = cal
+            tv.calendar = case.get('calspell', cal)
         edges = None
         if mode == 'bounds-var':
             f.createDimension('nv', 2)
@@ -160,11 +165,12 @@ class Prop(core.Prop):
         cc = calclass(cal)
         sig = ('getTimes', 'cf', cc)
         scope = dict(part='cf', unit=unit, calclass=cc, spelling=name, mode=mode, tdtype=tdt,
+                     calcase='lower' if case.get('calspell', cal) == cal else 'other',
                      ref_is_jan1=bool(ref[1] == 1 and ref[2] == 1),
                      ref_has_time=bool(ref[3] or ref[4] or ref[5]), tzoff=off)
         refx = ref + (0, off)
         vs = []
-        st = [h64('cf', units, cal, mode, tdt)]
+        st = [h64('cf', units, case.get('calspell', cal), mode, tdt)]
         try:
             got = f.getTimes(bounds=mode.startswith('bounds'))
         except Exception as e:
@@ -241,7 +247,7 @@ class Prop(core.Prop):
             except Exception as e:
                 vs.append(viol('stale-after-edit', sig, 'decoding after an in-place edit raised %s: %r'
                                % (type(e).__name__, e), **scope))
-        return result('viol' if vs else 'ok-cf', vs, st, 1, h64('cf', units, cal, mode, tdt),
+        return result('viol' if vs else 'ok-cf', vs, st, 1, h64('cf', units, case.get('calspell', cal), mode, tdt),
                       h64(repr(gott)) if not vs else None)
 
     def run_tflag(self, case):
